@@ -7,7 +7,6 @@ import (
 	"sort"
 	"strconv"
 	"strings"
-	"testing/synctest"
 	"time"
 
 	"gorumsim/simnet"
@@ -123,7 +122,7 @@ var tickChoices = []time.Duration{time.Millisecond, 5 * time.Millisecond, 20 * t
 
 // step executes one scheduler step; it returns false when the chooser stops.
 func (w *World) doStep(fair bool) bool {
-	synctest.Wait()
+	quiesce()
 	w.mu.Lock()
 	w.step++
 	w.mu.Unlock()
